@@ -13,11 +13,11 @@ import (
 	"net"
 	"sync"
 	"time"
+	"verifharness/minex"
 
 	"go.sia.tech/core/consensus"
 	proto4 "go.sia.tech/core/rhp/v4"
 	"go.sia.tech/core/types"
-	"go.sia.tech/coreutils"
 	"go.sia.tech/coreutils/chain"
 	rhp4 "go.sia.tech/coreutils/rhp/v4"
 	"go.sia.tech/coreutils/testutil"
@@ -69,7 +69,7 @@ func (t *PipeTransport) Close() error {
 	return nil
 }
 
-func (t *PipeTransport) FrameSize() int          { return 1440 }
+func (t *PipeTransport) FrameSize() int           { return 1440 }
 func (t *PipeTransport) PeerKey() types.PublicKey { return t.peer }
 
 func (t *PipeTransport) DialStream(ctx context.Context) (net.Conn, error) {
@@ -301,14 +301,14 @@ type FundSigner struct {
 func (fs *FundSigner) FundV2Transaction(txn *types.V2Transaction, amount types.Currency) (types.ChainIndex, []int, error) {
 	return fs.W.FundV2Transaction(txn, amount, true)
 }
-func (fs *FundSigner) RecommendedFee() types.Currency       { return fs.W.RecommendedFee() }
+func (fs *FundSigner) RecommendedFee() types.Currency           { return fs.W.RecommendedFee() }
 func (fs *FundSigner) ReleaseInputs(txns []types.V2Transaction) { fs.W.ReleaseInputs(nil, txns) }
 func (fs *FundSigner) SignV2Inputs(txn *types.V2Transaction, toSign []int) {
 	fs.W.SignV2Inputs(txn, toSign)
 }
 func (fs *FundSigner) SignHash(h types.Hash256) types.Signature { return fs.PK.SignHash(h) }
-func (fs *FundSigner) PublicKey() types.PublicKey             { return fs.PK.PublicKey() }
-func (fs *FundSigner) Address() types.Address                 { return fs.W.Address() }
+func (fs *FundSigner) PublicKey() types.PublicKey               { return fs.PK.PublicKey() }
+func (fs *FundSigner) Address() types.Address                   { return fs.W.Address() }
 
 // DefaultPrices are the prices of the host's own settings (the harnesses mostly sign their own
 // price tables with the host key).
@@ -395,7 +395,7 @@ func (r *Rig) syncWallet() error {
 // contractor have caught up.
 func (r *Rig) Mine(n int) error {
 	for ; n > 0; n-- {
-		b, ok := coreutils.MineBlock(r.CM, r.W.Address(), 5*time.Second)
+		b, ok := minex.MineBlock(r.CM, r.W.Address())
 		if !ok {
 			return errors.New("failed to mine block")
 		}
@@ -487,9 +487,11 @@ func (r *Rig) Open() *Stream {
 	return &Stream{Conn: c, t: r.T}
 }
 
-func (s *Stream) Request(id types.Specifier, o proto4.Object) error { return proto4.WriteRequest(s, id, o) }
-func (s *Stream) Send(o proto4.Object) error                         { return proto4.WriteResponse(s, o) }
-func (s *Stream) Recv(o proto4.Object) error                         { return proto4.ReadResponse(s, o) }
+func (s *Stream) Request(id types.Specifier, o proto4.Object) error {
+	return proto4.WriteRequest(s, id, o)
+}
+func (s *Stream) Send(o proto4.Object) error { return proto4.WriteResponse(s, o) }
+func (s *Stream) Recv(o proto4.Object) error { return proto4.ReadResponse(s, o) }
 
 // End closes the stream and waits until the host's handler has returned.
 func (s *Stream) End() {
